@@ -1,45 +1,10 @@
 #!/usr/bin/env python3
-"""Regenerates MANIFEST.json from the table below (kept in one place so the
-manifest stays valid while checks are added)."""
+"""Regenerates MANIFEST.json from claims/<ID>.json (one file per claimed property)."""
+import glob
 import json
+import os
 
-CLAIMED = {
-    "C01": dict(
-        text="Bounded symbolic checking: the jaxpr of the real constructors and step functions is executed over z3 reals with L, dt, every coefficient and the whole spectrum symbolic; "
-        "unsat per stored mode means the exp argument equals dt*documented symbol and the step multiplies by it, for all real parameter values at the listed grid sizes; "
-        "semigroup/inverse from sound exp instances; physical-space call equals an independent inverse DFT on Nyquist-free states; wave stepper equals the d'Alembert rotation.",
-        note="Real arithmetic instead of IEEE floats; exp/sqrt Ackermannised with sound facts only; grid sizes bounded (listed in evidence); trusted: JAX tracer, the interpreter's primitive rules (validated against the real function at random points every run), z3.",
-        technique="symbolic execution of the jaxpr (make_jaxpr of the real code) to QF_NRA, z3 per-component unsat/sat with replay",
-        ref="5/C01",
-    ),
-}
-
-CLAIMED["C02"] = dict(
-    text="Bounded symbolic checking of the real ETDRK1-4 constructors and step functions: with dt and a complex symbol per mode symbolic, exp and the contour divisions Ackermannised (staged), "
-    "every quotient the code forms has the Cox-Matthews numerator/denominator, every contour point is r*rho_j + lambda*dt, every stored coefficient is dt times the COMPLEX mean; "
-    "the integrands equal the phi-function combinations (algebra); step_fourier with an opaque nonlinear term and free coefficient arrays equals the Cox-Matthews stages (staged congruence).",
-    note="Quadrature error of the M-point mean vs the exact phi function (and hence the convergence order) is outside the claim; real arithmetic; M in {8,16,32}; trusted: tracer, interpreter, z3; replay compares the real constructor with 50-digit mpmath phi-functions.",
-    technique="symbolic execution of the constructor/step jaxprs with staged Ackermannisation of exp, division and the opaque nonlinear term; z3 QF_NRA",
-    ref="5/C02",
-)
-
-CLAIMED["C03"] = dict(
-    text="Bounded symbolic checking: every built-in nonlinear-function class is traced with L, scales/coefficients and a full Hermitian spectrum symbolic and compared, per stored mode and channel, with the documented operator "
-    "evaluated by exact convolution over integer wavenumbers on the retained band (zero outside) - a polynomial identity decided by z3; odd and even N via exact twiddles (radicals / minimal polynomial of cos(2pi/N)). "
-    "The float cut-off decision of the dealiasing mask is decided against the exact rational rule for ALL N<=4096 in QF_BVFP (f32 and f64), from the AST of the current source.",
-    note="E1 grid sizes bounded (listed in evidence); real arithmetic; input is the rfft of a real field; E2 models JAX's rfftfreq/weak-type comparison semantics (validated by a sweep each run); trusted: tracer, interpreter, z3, cvc5.",
-    technique="symbolic execution of jaxprs to QF_NRA (z3) + AST-extracted scalar kernels to QF_BVFP with symbolic N (cvc5)",
-    ref="5/C03",
-)
-
-CLAIMED["C04"] = dict(
-    text="Bounded symbolic checking of the real fft/ifft/make_grid/get_fourier_coefficients/scaling arrays: round trip for symbolic states; grid entries j*L/N with L symbolic; for EVERY wavenumber vector of each listed grid a field "
-    "A cos(theta)-B sin(theta) with symbolic amplitude/phase lands, through the real code, exactly in the stored mode(s) the documented layout and the real wavenumber array name, with the documented scaling for all three modes and both indexings. "
-    "For ALL N<=4096: wavenumber kernels exact in f32 and f64 (QF_BVFP from the AST), oddball cut-off; mode blocks map wavenumber to wavenumber for all grid sizes (real get_modes_slices run on parity-split symbolic ints, LIA).",
-    note="E1 grids bounded; real arithmetic; get_fourier_coefficients with round=None; low-pass mask membership per N is concrete enumeration (stated as such); trusted: tracer, interpreter, z3, cvc5, the JAX rfftfreq model (validated by sweep).",
-    technique="symbolic execution of jaxprs to QF_NRA/LRA (z3) + AST kernels to QF_BVFP with symbolic N (cvc5) + LIA on symbolic-int execution of get_modes_slices",
-    ref="5/C04",
-)
+HERE = os.path.dirname(os.path.abspath(__file__))
 
 NOT_APPLICABLE = {
     "C19": "floating-point overflow/precision faithfulness of XLA's exp/complex-division kernels for |lambda dt| up to 1e15 and f32-vs-f64 closeness: needs a bit-level model of XLA CPU kernels and exp in QF_FP, which is not available offline; real-arithmetic fragments are discharged under C02/C03 instead (DESIGN.md section 9)",
@@ -47,8 +12,11 @@ NOT_APPLICABLE = {
 
 
 def main():
+    claimed = {}
+    for f in sorted(glob.glob(os.path.join(HERE, "claims", "C*.json"))):
+        claimed[os.path.basename(f)[:-5]] = json.load(open(f))
     checks = []
-    for pid, c in sorted(CLAIMED.items()):
+    for pid, c in sorted(claimed.items()):
         checks.append(
             {
                 "property_id": pid,
@@ -57,17 +25,15 @@ def main():
                 "evidence_file": f"evidence/{pid}.json",
                 "replay_cmd_template": f"./check {pid} --replay {{path}}",
                 "engine": c.get("engine", "jx2smt"),
-                "level_claimed": {"category": "model_checking", "text": c["text"], "design_ref": "DESIGN.md section " + c["ref"]},
+                "level_claimed": {"category": c.get("category", "model_checking"), "text": c["text"], "design_ref": "DESIGN.md section " + c["ref"]},
                 "level_note": c["note"],
                 "technique": c["technique"],
             }
         )
-    import os
-    here = os.path.dirname(os.path.abspath(__file__))
-    props = [json.loads(l)["id"] for l in open(os.path.join(here, "properties.jsonl"))]
+    props = [json.loads(l)["id"] for l in open(os.path.join(HERE, "properties.jsonl"))]
     na = dict(NOT_APPLICABLE)
     for p in props:
-        if p not in CLAIMED and p not in na:
+        if p not in claimed and p not in na:
             na[p] = "check not built yet in this revision (planned, see DESIGN.md section 5)"
     m = {
         "version": 1,
@@ -80,15 +46,15 @@ def main():
             "add_only": True,
         },
         "engines": [
-            {"name": "jx2smt", "path": "vlib/jx2smt.py", "serves_properties": sorted(CLAIMED), "kind_free_text": "symbolic execution of jax.make_jaxpr of the real exponax code over z3 reals (QF_NRA), explicit DFT with exact twiddles, Ackermannised transcendentals, worker-pool discharge, model replay on the real API"},
-            {"name": "pyk2smt", "path": "vlib/pyk.py", "serves_properties": [], "kind_free_text": "scalar integer/float kernels extracted from the Python AST to QF_BVFP / LIA with symbolic N"},
-            {"name": "crosshair-guards", "path": "vlib/guards.py", "serves_properties": [], "kind_free_text": "CrossHair symbolic execution of the real guard functions (f-strings blanked)"},
+            {"name": "jx2smt", "path": "vlib/jx2smt.py", "serves_properties": sorted(claimed), "kind_free_text": "symbolic execution of jax.make_jaxpr of the real exponax code over z3 reals (QF_NRA), explicit DFT with exact twiddles, Ackermannised transcendentals, worker-pool discharge, model replay on the real API"},
+            {"name": "pyk2smt", "path": "vlib/pyk.py", "serves_properties": [p for p in ("C03", "C04", "C13", "C17") if p in claimed], "kind_free_text": "scalar integer/float kernels extracted from the Python AST to QF_BVFP / LIA with symbolic N (cvc5, z3)"},
+            {"name": "crosshair-guards", "path": "vlib/guards.py", "serves_properties": [p for p in ("C20", "C18") if p in claimed], "kind_free_text": "CrossHair symbolic execution of the real guard functions (f-strings blanked)"},
         ],
         "checks": checks,
         "not_applicable": [{"property_id": k, "reason": v} for k, v in sorted(na.items())],
         "notes": "All checks: cwd=/verif, `./check <ID> --tier quick|thorough`; exit 0 ok, 1 violation (VIOLATION line + replay file), 3 harness error (never a violation). Known findings: known_findings.txt.",
     }
-    with open(os.path.join(here, "MANIFEST.json"), "w") as f:
+    with open(os.path.join(HERE, "MANIFEST.json"), "w") as f:
         json.dump(m, f, indent=1)
 
 
